@@ -97,6 +97,46 @@ def _flag_polarity(cfg, node, flag: str) -> Optional[bool]:
     return None
 
 
+def _polarity_where_used(cfg, read, flag: str, want: bool) -> Optional[bool]:
+    """``t = self._table`` evaluated unconditionally as a default and overwritten on the other arm
+    (``t = <rendered>; if source: t = <source>``): the value is *consulted* only where that binding is
+    still live.  Returns ``want`` when every path from the binding to a use of the local that passes no
+    other binding of it passes a branch on which ``flag`` is known to be ``want``; else None."""
+    from ..cfg import Branch, defs_of_stmt
+
+    st = cfg.stmt_of(read)
+    if not (isinstance(st, (ast.Assign, ast.AnnAssign)) and st.value is read):
+        return None
+    tg = st.targets if isinstance(st, ast.Assign) else [st.target]
+    if len(tg) != 1 or not isinstance(tg[0], ast.Name):
+        return None
+    name = tg[0].id
+    rd = cfg.reaching()
+    uses = []
+    for n in walk_local(cfg.func):
+        if isinstance(n, ast.Name) and isinstance(n.ctx, ast.Load) and n.id == name:
+            us = cfg.stmt_of(n)
+            if us is not None and any(d.stmt is st for d in rd.defs_at(us, name)) and us not in uses:
+                uses.append(us)
+    if not uses:
+        return None
+
+    def blocks(n) -> bool:
+        if n is not st and isinstance(n, ast.stmt) and any(d.name == name for d in defs_of_stmt(n)):
+            return True  # overwritten: this value is no longer the one consulted
+        if isinstance(n, Branch) and isinstance(n.stmt, (ast.If, ast.While)):
+            t, pol = n.stmt.test, n.polarity
+            while isinstance(t, ast.UnaryOp) and isinstance(t.op, ast.Not):
+                t, pol = t.operand, not pol
+            if isinstance(t, ast.Name) and param_origin(cfg, t, n.stmt) == flag and pol is want:
+                return True
+        return False
+
+    if all(not cfg.paths_avoiding(st, us, blocks) for us in uses):
+        return want
+    return None
+
+
 def _r31a(chk, repo, sk: SpaceKinds) -> None:
     init = repo.fn(TBASE, "TemplatedFile.__init__")
     # ---- (1) how the tables are built (kind of the stored value) -------------------------------
@@ -158,6 +198,8 @@ def _r31a(chk, repo, sk: SpaceKinds) -> None:
     for r in reads:
         pol = _flag_polarity(ccfg, r, flag)
         want = r.attr == "_source_newlines"
+        if pol is None:
+            pol = _polarity_where_used(ccfg, r, flag, want)
         seen.add(r.attr)
         chk.require(
             pol is want, "R31a", r,
@@ -352,6 +394,16 @@ def _cone(cfg, expr, at, stop=(), _seen=None, _depth=0, _hit=None) -> Set[str]:
     return out
 
 
+def _bisect_args(c: ast.Call):
+    """(sequence, value) of a ``bisect*(a, x)`` call, positional or by keyword; None when not both given."""
+    if any(isinstance(a, ast.Starred) for a in c.args) or any(k.arg is None for k in c.keywords):
+        return None
+    kw = {k.arg: k.value for k in c.keywords}
+    seq = c.args[0] if len(c.args) >= 1 else kw.get("a")
+    val = c.args[1] if len(c.args) >= 2 else kw.get("x")
+    return (seq, val) if seq is not None and val is not None else None
+
+
 def _r31c(chk, repo) -> None:
     # ---- (1) one table, one offset -------------------------------------------------------------
     conv = repo.fn(TBASE, CONVERTER)
@@ -362,7 +414,7 @@ def _r31c(chk, repo) -> None:
     for c in calls_in(conv):
         cn = call_name(c)
         fq = conv._module.imports.get(cn.split(".")[0], "")
-        if cn.split(".")[-1] in ("bisect_left", "bisect_right", "bisect") and fq.startswith("bisect") and len(c.args) >= 2:
+        if cn.split(".")[-1] in ("bisect_left", "bisect_right", "bisect") and fq.startswith("bisect") and _bisect_args(c) is not None:
             bis.append(c)
     chk.count("R31c.bisect_calls", len(bis))
     if not bis:
@@ -381,13 +433,14 @@ def _r31c(chk, repo) -> None:
     bis_results: Set[str] = set()
     for b in bis:
         st = cfg.stmt_of(b)
-        t = table_origin_ids(b.args[0], st)
-        chk.require(t is not None and len(t) >= 1, "R31c", b, f"the bisected sequence {short(b.args[0], 40)} is not one of the TemplatedFile newline tables", detail="bisect over a newline table")
+        b_seq, b_off = _bisect_args(b)
+        t = table_origin_ids(b_seq, st)
+        chk.require(t is not None and len(t) >= 1, "R31c", b, f"the bisected sequence {short(b_seq, 40)} is not one of the TemplatedFile newline tables", detail="bisect over a newline table")
         if t:
             tabs.add(t)
         chk.require(
-            isinstance(b.args[1], ast.Name) and param_origin(cfg, b.args[1], st) == off, "R31c", b,
-            f"the offset that is bisected ({short(b.args[1], 40)}) is not the unmodified offset parameter '{off}'",
+            isinstance(b_off, ast.Name) and param_origin(cfg, b_off, st) == off, "R31c", b,
+            f"the offset that is bisected ({short(b_off, 40)}) is not the unmodified offset parameter '{off}'",
             detail=f"bisect({off})",
         )
         p = getattr(b, "_parent", None)
@@ -448,6 +501,10 @@ def _r31c(chk, repo) -> None:
                 chk.fail("R31c", c, f"{f.name} splits with splitlines(), which also breaks lines at \\r, \\v, \\f, \\x1c-\\x1e, \\x85, \\u2028/9 while the newline tables only count '\\n'", detail=f"{f.name}: splitlines()")
                 continue
             a0 = c.args[0] if c.args else None
+            if isinstance(a0, ast.Name):
+                os_ = origins(fcfg, a0, fcfg.stmt_of(c))  # ``newline = "\n"`` kept in a local
+                if os_ and all(o.kind == "expr" and not o.path and isinstance(o.expr, ast.Constant) for o in os_) and len({o.expr.value for o in os_}) == 1:
+                    a0 = os_[0].expr
             ok = isinstance(a0, ast.Constant) and isinstance(a0.value, str)
             chk.require(ok, "R31c", c, f"{f.name}: the separator of {short(c, 50)} is not a string literal", detail=f"{f.name}: literal newline separator")
             if ok:
@@ -593,6 +650,134 @@ VARIANTS = [
         "        split = raw.split(\"\\n\")\n        return (\n            line_no + len(split) - 1,\n            line_pos + len(raw) if len(split) == 1 else len(split[-1]) + 1,\n        )\n",
         "        parts = raw.split(\"\\n\")\n        n_new = len(parts) - 1\n        if n_new == 0:\n            return line_no, line_pos + len(raw)\n        return line_no + n_new, len(parts[-1]) + 1\n",
         "QUIET", None, "conditional expression unfolded into two returns",
+    ),
+    # behaviour-preserving refactors: must stay quiet
+    Variant(
+        "quiet-flag-nested-not", TBASE,
+        '        if source:\n            ref_str = self._source_newlines\n        else:\n            ref_str = self._templated_newlines\n',
+        '        if not source:\n            ref_str = self._templated_newlines\n        else:\n            ref_str = self._source_newlines\n',
+        "QUIET", None, 'arms swapped under `not source`',
+    ),
+    Variant(
+        "quiet-default-then-override", TBASE,
+        '        if source:\n            ref_str = self._source_newlines\n        else:\n            ref_str = self._templated_newlines\n',
+        '        ref_str = self._templated_newlines\n        if source:\n            ref_str = self._source_newlines\n',
+        "QUIET", None, 'rendered table as the default, overwritten when source is set',
+    ),
+    Variant(
+        "quiet-flag-is-true", TBASE,
+        '        if source:\n            ref_str = self._source_newlines\n',
+        '        if source is True:\n            ref_str = self._source_newlines\n',
+        "QUIET", None, '`source is True`',
+    ),
+    Variant(
+        "quiet-flag-local", TBASE,
+        '        if source:\n            ref_str = self._source_newlines\n',
+        '        in_source = source\n        if in_source:\n            ref_str = self._source_newlines\n',
+        "QUIET", None, 'flag through a local',
+    ),
+    Variant(
+        "quiet-bisect-keyword", TBASE,
+        '        nl_idx = bisect_left(ref_str, char_pos)\n',
+        '        nl_idx = bisect_left(ref_str, x=char_pos)\n',
+        "QUIET", None, 'offset handed to bisect by keyword',
+    ),
+    Variant(
+        "quiet-offset-local", TBASE,
+        '        nl_idx = bisect_left(ref_str, char_pos)\n',
+        '        offset = char_pos\n        nl_idx = bisect_left(ref_str, offset)\n',
+        "QUIET", None, 'offset through a local',
+    ),
+    Variant(
+        "quiet-tuple-local", TBASE,
+        '            return nl_idx + 1, char_pos - ref_str[nl_idx - 1]\n',
+        '            result = (nl_idx + 1, char_pos - ref_str[nl_idx - 1])\n            return result\n',
+        "QUIET", None, 'result pair through a local',
+    ),
+    Variant(
+        "quiet-prev-index-local", TBASE,
+        '            return nl_idx + 1, char_pos - ref_str[nl_idx - 1]\n',
+        '            prev_nl = nl_idx - 1\n            return nl_idx + 1, char_pos - ref_str[prev_nl]\n',
+        "QUIET", None, 'index of the previous newline through a local',
+    ),
+    Variant(
+        "quiet-gt-zero-truthy", TBASE,
+        '        if nl_idx > 0:\n',
+        '        if nl_idx:\n',
+        "QUIET", None, '`nl_idx > 0` as truthiness of a non-negative index',
+    ),
+    Variant(
+        "quiet-two-arms-return", TBASE,
+        '        if source:\n            ref_str = self._source_newlines\n        else:\n            ref_str = self._templated_newlines\n\n        nl_idx = bisect_left(ref_str, char_pos)\n',
+        '        ref_str = self._source_newlines if source else self._templated_newlines\n        nl_idx = bisect_left(ref_str, char_pos)\n',
+        "QUIET", None, 'table chosen by one conditional expression',
+    ),
+    Variant(
+        "quiet-tables-comprehension", TBASE,
+        '        self._source_newlines = list(iter_indices_of_newlines(self.source_str))\n',
+        '        self._source_newlines = [idx for idx in iter_indices_of_newlines(self.source_str)]\n',
+        "QUIET", None, 'list() as a comprehension',
+    ),
+    Variant(
+        "quiet-tables-tuple-assign", TBASE,
+        '        self._source_newlines = list(iter_indices_of_newlines(self.source_str))\n        self._templated_newlines = list(iter_indices_of_newlines(self.templated_str))\n',
+        '        self._source_newlines, self._templated_newlines = (\n            list(iter_indices_of_newlines(self.source_str)),\n            list(iter_indices_of_newlines(self.templated_str)),\n        )\n',
+        "QUIET", None, 'both tables stored by one tuple assignment',
+    ),
+    Variant(
+        "quiet-finder-newline-constant", TBASE,
+        '        nl_pos = raw_str.find("\\n", init_idx + 1)\n',
+        '        newline = "\\n"\n        nl_pos = raw_str.find(newline, init_idx + 1)\n',
+        "QUIET", None, 'the newline literal through a local',
+    ),
+    Variant(
+        "quiet-finder-start-local", TBASE,
+        '        nl_pos = raw_str.find("\\n", init_idx + 1)\n',
+        '        search_from = init_idx + 1\n        nl_pos = raw_str.find("\\n", search_from)\n',
+        "QUIET", None, 'search start through a local',
+    ),
+    Variant(
+        "quiet-infer-early-len", MARKERS,
+        '        if not raw:\n            return line_no, line_pos\n',
+        '        if len(raw) == 0:\n            return (line_no, line_pos)\n',
+        "QUIET", None, 'emptiness by length, parenthesised pair',
+    ),
+    Variant(
+        "quiet-infer-rsplit", MARKERS,
+        '        split = raw.split("\\n")\n        return (\n            line_no + len(split) - 1,\n            line_pos + len(raw) if len(split) == 1 else len(split[-1]) + 1,\n        )\n',
+        '        split = raw.split("\\n")\n        last_line = split[-1]\n        n_lines = len(split)\n        new_line_no = line_no + n_lines - 1\n        new_line_pos = line_pos + len(raw) if n_lines == 1 else len(last_line) + 1\n        return new_line_no, new_line_pos\n',
+        "QUIET", None, 'components through locals',
+    ),
+    Variant(
+        "quiet-infer-rpartition", MARKERS,
+        '        split = raw.split("\\n")\n        return (\n            line_no + len(split) - 1,\n            line_pos + len(raw) if len(split) == 1 else len(split[-1]) + 1,\n        )\n',
+        '        head, nl, tail = raw.rpartition("\\n")\n        if not nl:\n            return line_no, line_pos + len(raw)\n        return line_no + raw.count("\\n"), len(tail) + 1\n',
+        "QUIET", None, 'last line by rpartition, line count by count',
+    ),
+    # ---- breaking twins of the quiet spellings above ---------------------------------------------
+    Variant(
+        "default-source-override-when-source", TBASE,
+        '        if source:\n            ref_str = self._source_newlines\n        else:\n            ref_str = self._templated_newlines\n',
+        '        ref_str = self._source_newlines\n        if source:\n            ref_str = self._templated_newlines\n',
+        "R31a", "get_line_pos_of_char_pos", 'twin of quiet-default-then-override: tables swapped',
+    ),
+    Variant(
+        "default-not-overridden", TBASE,
+        '        if source:\n            ref_str = self._source_newlines\n        else:\n            ref_str = self._templated_newlines\n',
+        '        ref_str = self._templated_newlines\n        if source and char_pos:\n            ref_str = self._source_newlines\n',
+        "R31a", "get_line_pos_of_char_pos", 'twin of quiet-default-then-override: the default survives when source is set and the offset is 0',
+    ),
+    Variant(
+        "bisect-keyword-other-offset", TBASE,
+        '        nl_idx = bisect_left(ref_str, char_pos)\n',
+        '        nl_idx = bisect_left(ref_str, x=char_pos + 1)\n',
+        "R31c", "get_line_pos_of_char_pos", 'twin of quiet-bisect-keyword',
+    ),
+    Variant(
+        "newline-local-crlf", TBASE,
+        '        nl_pos = raw_str.find("\\n", init_idx + 1)\n',
+        '        newline = "\\r\\n"\n        nl_pos = raw_str.find(newline, init_idx + 1)\n',
+        "R31c", "infer_next_position", 'twin of quiet-finder-newline-constant',
     ),
     # ---- breaking edits -----------------------------------------------------------------------------
     Variant(
